@@ -425,6 +425,10 @@ func c03r2(c *core.Ctx) {
 				npanic++
 				name := core.SSAName(f)
 				why, okd := dischargedPanics[name]
+				if !okd && f.Pkg != nil && core.RelPkg(f.Pkg.Pkg) == "compiler" && guardedByOperandCount(b) {
+					// the operand-count assertion, wherever the emitting code keeps it
+					why, okd = dischargedPanics["compiler.makeInstruction"], true
+				}
 				c.Check(okd, name+"|explicit-panic", p.Pos(pn.Pos()), "explicit panic() reachable from parse/compile/Eval/error formatting with no recover in between"+ifs(okd, "; discharged: "+why)+ifs(!okd, "; not discharged by any checked invariant"))
 			}
 		}
@@ -1908,4 +1912,45 @@ func callsBuiltinParamUnbounded(f *ssa.Function) token.Pos {
 		}
 	}
 	return token.NoPos
+}
+
+// guardedByOperandCount: the block is reached only through the branch of a
+// comparison of len(..) with the OperandCount of an opcode's Info.
+func guardedByOperandCount(b *ssa.BasicBlock) bool {
+	for d, k := b.Idom(), 0; d != nil && k < 3; d, k = d.Idom(), k+1 {
+		if len(d.Instrs) == 0 {
+			continue
+		}
+		iff, ok := d.Instrs[len(d.Instrs)-1].(*ssa.If)
+		if !ok {
+			continue
+		}
+		be, ok := iff.Cond.(*ssa.BinOp)
+		if !ok {
+			continue
+		}
+		isLen := func(v ssa.Value) bool {
+			c, ok := v.(*ssa.Call)
+			if !ok {
+				return false
+			}
+			bi, ok := c.Call.Value.(*ssa.Builtin)
+			return ok && bi.Name() == "len"
+		}
+		isCount := func(v ssa.Value) bool {
+			switch x := v.(type) {
+			case *ssa.Field:
+				return x.X.Type().Underlying().(*types.Struct).Field(x.Field).Name() == "OperandCount"
+			case *ssa.UnOp:
+				if fa, ok := x.X.(*ssa.FieldAddr); ok {
+					return fa.X.Type().Underlying().(*types.Pointer).Elem().Underlying().(*types.Struct).Field(fa.Field).Name() == "OperandCount"
+				}
+			}
+			return false
+		}
+		if (isLen(be.X) && isCount(be.Y)) || (isLen(be.Y) && isCount(be.X)) {
+			return true
+		}
+	}
+	return false
 }
